@@ -58,6 +58,18 @@ fn err_fields(e: &ParseError, subject: &str, out: &mut Out) -> String {
     if no_panic(|| format!("{e} {e:?}")).is_none() {
         out.fail("C14", format!("formatting the ParseError of {subject:?} panicked"));
     }
+    // variant predicates (incl. the deprecated alias) and the error-source chain agree with the variant
+    #[allow(deprecated)]
+    let preds = (e.is_no_leading_slash(), e.is_no_leading_backslash(), e.is_invalid_encoding());
+    out.check(preds == (kind == "nls", kind == "nls", kind == "enc"), "C14", || format!("is_* predicates {preds:?} disagree with the variant {kind} for {subject:?}"));
+    #[cfg(feature = "full")]
+    {
+        let src = std::error::Error::source(e);
+        out.check(src.is_some() == (kind == "enc"), "C14", || format!("ParseError::source() presence disagrees with the variant {kind} for {subject:?}"));
+        if let Some(s) = src {
+            let _ = no_panic(|| format!("{s} {s:?} {:?}", s.source().map(|x| x.to_string())));
+        }
+    }
     format!("{kind} {} {} {} {label_s}", e.pointer_offset(), e.source_offset(), e.complete_offset())
 }
 
@@ -226,6 +238,17 @@ pub fn gen(tier: &str, rng: &mut Rng, emit: &mut dyn FnMut(String)) {
             emit(format!("door {d} {}", hex(t.as_bytes())));
         }
     });
+    for s in boundary_texts(tier) {
+        let variants = [s.clone(), format!("/{s}"), format!("/{}", rfc_escape(&s)), format!("/ab/{}/cd", rfc_escape(&s).replace('/', "~1"))];
+        for (i, t) in variants.iter().enumerate() {
+            for d in &doors {
+                // all doors on the pointer-shaped variants, the two main doors on the raw text
+                if i > 0 || *d == "parse" || *d == "bufparse" {
+                    emit(format!("door {d} {}", hex(t.as_bytes())));
+                }
+            }
+        }
+    }
     let n = if tier == "thorough" { 30_000 } else { 2_000 };
     for i in 0..n {
         let mut s = super::token::random_text(rng, if i % 40 == 0 { 3000 } else { 30 });
